@@ -46,7 +46,7 @@ func c08Unit(c *RunCtx, unit int) {
 								c.Stats.Count("cells")
 								// targets: a seeded sample of 5 plus the plain one
 								targets := []string{"/p"}
-								for k := 0; k < 5; k++ {
+								for k := 0; k < tierN(c.Tier, 5, 60); k++ {
 									t := c08Paths[r.Intn(len(c08Paths))]
 									if q := c08Queries[r.Intn(len(c08Queries))]; q != "" {
 										t += "?" + q
